@@ -3,18 +3,18 @@
   (unification followed by `process_extension`: re-run of the store, then the finite-domain extension
   that moves the domain of every newly bound variable onto the term it was bound to).
 -/
-import PvModel.Proofs.FDGlobal
+import PvModel.Proofs.FDRun
 import PvModel.Proofs.UnifyExt
 namespace Pv
 open State Term FD
-variable {I : Nat → Prop}
+variable {I : Nat → Prop} [Mode]
 
 /-- `Ref` without the claim that only numbers were bound (a unification binds variables to arbitrary terms) -/
 def Ref0 (I : Nat → Prop) (S : Subst → Prop) (st : State) : Res State → Prop
   | .ok st' => WFS st' ∧ Inv st' ∧ ∀ γ, Sem I γ st' ↔ (Sem I γ st ∧ S γ)
   | .fail => ∀ γ, ¬ (Sem I γ st ∧ S γ)
   | .fuel => True
-  | .panic _ => False
+  | .panic s => Mode.allow ∧ DP s ∧ ∀ γ, ¬ (Sem I γ st ∧ S γ)
 
 theorem sem_ignore_absent {st : State} {x : Nat} (hx : st.dget x = none) (γ : Subst) :
     Sem (fun y => I y ∨ y = x) γ st ↔ Sem I γ st := by
@@ -54,14 +54,106 @@ theorem sem_split_entry {st : State} (w : WFS st) {x : Nat} {d : FD} (hx : st.dg
       subst this; exact hd
     · exact dm p hp fun h => h.elim hn hpx
 
+theorem keeps_num {st st' : State} (k : Keeps st st') {y : Nat} {n : Int} (h : st.σ y = Term.num n) :
+    st'.σ y = Term.num n := by
+  have := k.ext (.var y)
+  simp only [apply] at this
+  rw [h] at this
+  simpa [Term.num, apply] using this.symm
+
+section Enf
+variable {rc : State → Res State} (hrc : RcOK rc) (hrs : RcSem rc)
+include hrs
+
+/-- what `resolve_storable_domain` leaves behind ENFORCES the domain by itself: the variable is bound to a
+    number of the domain, or carries the domain as its entry — whatever else the domain store holds -/
+theorem resolveStorable_enf {st s2 : State} {y : Nat} {i : FD} (hI : IOK I st) (w : WFS st) (hi : Inv st)
+    (hy : st.σ y = .var y) (hwi : WF i) (h : resolveStorable rc st y i = .ok s2) :
+    ∀ γ x0, x0 ≠ y → Sem I γ (s2.dremove x0) → InDom (.var y) i γ := by
+  unfold resolveStorable at h
+  split at h
+  · rename_i n hsv
+    have hsing := (singletonValue_spec i hwi n).1 hsv
+    generalize hst0 : ({ st with σ := bindS y (Term.num n) st.σ }.dremove y : State) = st0 at h
+    have hσ0 : st0.σ = bindS y (Term.num n) st.σ := by subst hst0; rfl
+    have hs0 : st0.store = st.store := by subst hst0; rfl
+    have hd0 : st0.dstore = st.dstore.filter (fun p => p.1 != y) := by subst hst0; rfl
+    have hbo := bind_ok (t := Term.num n) w.solved hy (by simp [Term.num, apply]) (by simp [Term.num, occurs])
+    have w0 : WFS st0 := by
+      refine ⟨by rw [hσ0]; exact hbo.1, ?_, ?_, by rw [hs0]; exact w.nodist⟩
+      · rw [hd0]; exact (List.Sublist.map (fun q : Nat × FD => q.1) List.filter_sublist).nodup w.dnodup
+      · intro p hp; rw [hd0] at hp; exact w.dwf p (List.mem_filter.1 hp).1
+    have i0 : Inv st0 := by subst hst0; exact SameStore.inv ⟨rfl, rfl, rfl, rfl, rfl⟩ hi
+    have hσy : st0.σ y = Term.num n := by rw [hσ0]; simp [bindS, hy, apply, sub1]
+    have r := hrs I st0 hI w0 i0
+    rw [h] at r
+    have h2 : s2.σ y = Term.num n := keeps_num r.2.1 hσy
+    intro γ x0 _ hs
+    have hx : Ext s2.σ γ := hs.1
+    refine ⟨n, ?_, (hsing n).2 rfl⟩
+    have := hx (.var y)
+    simp only [apply] at this
+    rw [h2] at this
+    unfold NumAt
+    simpa [Term.num, apply] using this.symm
+  · cases h
+    intro γ x0 hne hs
+    have hm : (y, i) ∈ ((st.dinsert y i).dremove x0).dstore := by
+      simp only [dremove, dinsert]
+      refine List.mem_filter.2 ⟨by simp, ?_⟩
+      have : y ≠ x0 := fun e => hne e.symm
+      simpa using this
+    exact hs.2.2 (y, i) hm (hI y)
+
+/-- the same for `process_domain` -/
+theorem processDomain_enf {st s2 : State} {t : Term} {d : FD} (hI : IOK I st) (w : WFS st) (hi : Inv st)
+    (hd : WFI d) (hdv : WF d ∨ ∀ y, walk st.σ t = .var y → (st.dget y).isSome)
+    (h : processDomain rc st t d = .ok s2) :
+    ∀ γ x0, st.σ x0 ≠ .var x0 → Ext st.σ γ → Sem I γ (s2.dremove x0) → InDom t d γ := by
+  unfold processDomain at h
+  split at h
+  · rename_i y hy
+    have hyu : st.σ y = .var y := walk_normal w.solved t y hy
+    intro γ x0 hx0 hx hs
+    have hne : x0 ≠ y := fun e => hx0 (e ▸ hyu)
+    have back : ∀ i : FD, (∀ n, i.Mem n → d.Mem n) → InDom (.var y) i γ → InDom t d γ := fun i hsub ⟨n, hn, hni⟩ =>
+      ⟨n, by rw [← numAt_walk w.solved hx, hy]; exact hn, hsub n hni⟩
+    unfold updateVarDomain at h
+    split at h
+    · rename_i old hold
+      have hwo : WF old := w.dwf _ (dget_mem hold)
+      split at h
+      · rename_i i hint
+        obtain ⟨hwi, hmi⟩ := intersect_someI old d i hwo hd hint
+        exact back i (fun n hn => ((hmi n).1 hn).2) (resolveStorable_enf hrs hI w hi hyu hwi h γ x0 hne hs)
+      · cases h
+    · rename_i hnone
+      have hd' : WF d := by
+        rcases hdv with h' | h'
+        · exact h'
+        · have := h' y hy; rw [hnone] at this; cases this
+      exact back d (fun _ h => h) (resolveStorable_enf hrs hI w hi hyu hd' h γ x0 hne hs)
+  · rename_i v hv
+    split at h
+    · rename_i hc
+      cases h
+      intro γ x0 _ hx _
+      exact ⟨v, by rw [← numAt_walk w.solved hx, hv]; exact (numAt_num γ v v).2 rfl, (contains_spec d v).1 hc⟩
+    · cases h
+  · cases h
+
+end Enf
+
 section Step
 variable {ord : Order} (ho : OrderOK ord)
 include ho
 
 /-- one variable of the extension: its domain is imposed on the term it was bound to, its entry removed,
-    the store re-run -/
+    the store re-run.  The entry of the bound variable COUNTS until it is removed (the worker of `distinctfd`
+    may read it in between); removing it loses nothing because `process_domain` has left the domain
+    enforced on the term (`processDomain_enf`). -/
 theorem extStep_sem {snap cur : State} (hI : IOK I cur) (w : WFS cur) (hi : Inv cur) {x : Nat} {t : Term}
-    (hxb : cur.σ x ≠ .var x) (hnI : ¬ I x)
+    (hxb : cur.σ x ≠ .var x)
     (H1 : ∀ γ, Ext cur.σ γ → apply γ (.var x) = apply γ t)
     (hdx : cur.dget x = snap.dget x) :
     match (match snap.dget x with
@@ -75,7 +167,7 @@ theorem extStep_sem {snap cur : State} (hI : IOK I cur) (w : WFS cur) (hi : Inv 
         (∀ y, y ≠ x → cur.σ y ≠ .var y → s3.dget y = cur.dget y) ∧ (∀ γ, Sem I γ s3 ↔ Sem I γ cur)
     | .fail => ∀ γ, ¬ Sem I γ cur
     | .fuel => True
-    | .panic _ => False := by
+    | .panic s => Mode.allow ∧ DP s ∧ ∀ γ, ¬ Sem I γ cur := by
   cases hsd : snap.dget x with
   | none =>
     show WFS cur ∧ Inv cur ∧ Ext cur.σ cur.σ ∧ (∀ y, cur.σ y = .var y → cur.σ y = .var y) ∧
@@ -85,16 +177,16 @@ theorem extStep_sem {snap cur : State} (hI : IOK I cur) (w : WFS cur) (hi : Inv 
     simp only
     rw [hsd] at hdx
     have hwd : WF d := w.dwf _ (dget_mem hdx)
-    let I' : Nat → Prop := fun y => I y ∨ y = x
-    have hI' : IOK I' cur := fun y hy => hy.elim (hI y) fun e => e ▸ hxb
     have hrc := runConstraintsF_ok ord rcFuel
     have hrs := runConstraintsF_sem ho rcFuel
-    have p1 := processDomain_sem (I := I') hrs hI' w hi (x := t) (WFI.of_wf hwd) (.inl hwd)
-    -- under the state's substitution, `t ∈ d` says `x ∈ d`
-    have hin : ∀ γ, Ext cur.σ γ → (InDom t d γ ↔ InDom (.var x) d γ) := fun γ he => by
-      unfold InDom NumAt; rw [H1 γ he]
+    have p1 := processDomain_sem (I := I) hrs hI w hi (x := t) (WFI.of_wf hwd) (.inl hwd)
+    -- the entry of `x` counts: under the state's substitution, `t ∈ d` is already required
+    have hent : ∀ γ, Sem I γ cur → InDom t d γ := fun γ hs => by
+      obtain ⟨n, hn, hnd⟩ := hs.2.2 (x, d) (dget_mem hdx) (hI x)
+      exact ⟨n, by unfold NumAt at *; rw [← H1 γ hs.1]; exact hn, hnd⟩
     cases hp : processDomain (runConstraintsF ord rcFuel) cur t d with
     | ok s2 =>
+      have enf := processDomain_enf hrs hI w hi (WFI.of_wf hwd) (.inl hwd) hp
       rw [hp] at p1
       obtain ⟨w2, k2, sem2⟩ := p1
       have i2 : Inv s2 := (processDomain_step hrc hi hp).inv
@@ -108,7 +200,6 @@ theorem extStep_sem {snap cur : State} (hI : IOK I cur) (w : WFS cur) (hi : Inv 
         ⟨w2.solved, (List.Sublist.map (fun q : Nat × FD => q.1) List.filter_sublist).nodup w2.dnodup,
          fun p hp => w2.dwf p (List.mem_filter.1 hp).1, w2.nodist⟩
       have i2' : Inv (s2.dremove x) := SameStore.inv ⟨rfl, rfl, rfl, rfl, rfl⟩ i2
-      have hI2' : IOK I' (s2.dremove x) := (hI'.keep k2).same rfl
       have hnone : (s2.dremove x).dget x = none := by
         cases h : (s2.dremove x).dget x with
         | none => rfl
@@ -117,48 +208,59 @@ theorem extStep_sem {snap cur : State} (hI : IOK I cur) (w : WFS cur) (hi : Inv 
           simp only [dremove] at this
           have := (List.mem_filter.1 this).2
           simp at this
-      have p3 := runConstraintsF_sem ho (rcFuel + 1) I' (s2.dremove x) hI2' w2' i2'
+      -- removing the entry loses nothing
+      have hrem : ∀ γ, Sem I γ (s2.dremove x) ↔ Sem I γ s2 := fun γ => by
+        constructor
+        · intro hs
+          have hx2 : Ext s2.σ γ := hs.1
+          have hxc : Ext cur.σ γ := Ext.trans k2.ext hx2
+          obtain ⟨n, hn, hnd⟩ := enf γ x hxb hxc hs
+          refine ⟨hs.1, hs.2.1, fun p hp hnI => ?_⟩
+          by_cases hpx : p.1 = x
+          · have : p = (x, d) := by
+              have h2 := dget_mem hd2
+              have := nodup_fst_unique w2.dnodup (x := x) (d := p.2) (d' := d) (by rw [← hpx]; exact hp) h2
+              cases p; simp only at hpx this; subst hpx; subst this; rfl
+            subst this
+            exact ⟨n, by unfold NumAt at *; rw [H1 γ hxc]; exact hn, hnd⟩
+          · exact hs.2.2 p (List.mem_filter.2 ⟨hp, by simpa using hpx⟩) hnI
+        · rintro ⟨e, c, dm⟩
+          exact ⟨e, c, fun p hp hn => dm p (List.mem_filter.1 hp).1 hn⟩
+      have p3 := runConstraintsF_sem ho (rcFuel + 1) I (s2.dremove x) hI w2' i2'
       cases hr : runConstraintsF ord (rcFuel + 1) (s2.dremove x) with
       | ok s3 =>
         rw [hr] at p3
         obtain ⟨w3, k3, sem3⟩ := p3
         have i3 : Inv s3 := (runConstraintsF_ok ord (rcFuel + 1) _ _ i2' hr).inv
-        have hx3 : s3.dget x = none := by
-          cases h : s3.dget x with
-          | none => rfl
-          | some d' =>
-            rcases k3.keys x (by rw [h]; rfl) with a | a
-            · rw [hnone] at a; cases a
-            · exact absurd a hxb2
         refine ⟨w3, i3, Ext.trans k2.ext k3.ext, fun y hy => k2.mono y (k3.mono y hy), fun y hyx hyb => ?_, fun γ => ?_⟩
         · have hyb2 : s2.σ y ≠ .var y := fun e => hyb (k2.mono y e)
           rw [k3.bound y hyb2, dget_dremove_ne s2 hyx, k2.bound y hyb]
-        · rw [← sem_ignore_absent hx3 γ, sem3 γ, sem_ignore_dremove γ, sem2 γ, sem_split_entry w hdx hnI γ]
-          constructor
-          · rintro ⟨⟨a, b⟩, _⟩; exact ⟨a, (hin γ a.1).1 b⟩
-          · rintro ⟨a, b⟩; exact ⟨⟨a, (hin γ a.1).2 b⟩, trivial⟩
+        · rw [sem3 γ, hrem γ, sem2 γ]
+          exact ⟨fun a => a.1.1, fun a => ⟨⟨a, hent γ a⟩, trivial⟩⟩
       | fail =>
         rw [hr] at p3
         intro γ hs
-        have hs' := (sem_split_entry w hdx hnI γ).1 hs
-        exact p3 γ ⟨(sem_ignore_dremove γ).2 ((sem2 γ).2 ⟨hs'.1, (hin γ hs.1).2 hs'.2⟩), trivial⟩
+        exact p3 γ ⟨(hrem γ).2 ((sem2 γ).2 ⟨hs, hent γ hs⟩), trivial⟩
       | fuel => trivial
-      | panic s => rw [hr] at p3; exact p3
+      | panic s =>
+        rw [hr] at p3
+        exact ⟨p3.1, p3.2.1, fun γ hs => p3.2.2 γ ⟨(hrem γ).2 ((sem2 γ).2 ⟨hs, hent γ hs⟩), trivial⟩⟩
     | fail =>
       rw [hp] at p1
       simp only [Res.bind]
       intro γ hs
-      have hs' := (sem_split_entry w hdx hnI γ).1 hs
-      exact p1 γ ⟨hs'.1, (hin γ hs.1).2 hs'.2⟩
+      exact p1 γ ⟨hs, hent γ hs⟩
     | fuel => trivial
-    | panic s => rw [hp] at p1; exact p1
+    | panic s =>
+      rw [hp] at p1
+      exact ⟨p1.1, p1.2.1, fun γ hs => p1.2.2 γ ⟨hs, hent γ hs⟩⟩
 
 end Step
 end Pv
 
 namespace Pv
 open State Term FD
-variable {I : Nat → Prop}
+variable {I : Nat → Prop} [Mode]
 
 /-- the body of the `process_extension_fd` loop -/
 def extStep (ord : Order) (snap cur : State) (p : Nat × Term) : Res State :=
@@ -184,7 +286,7 @@ theorem extFold_sem {ord : Order} (ho : OrderOK ord) (snap : State) (σ' : Subst
       | .ok s' => WFS s' ∧ Inv s' ∧ (∀ γ, Sem I γ s' ↔ Sem I γ cur)
       | .fail => ∀ γ, ¬ Sem I γ cur
       | .fuel => True
-      | .panic _ => False
+      | .panic s => Mode.allow ∧ DP s ∧ ∀ γ, ¬ Sem I γ cur
   | [], cur, _, w, hi, _, _, _, _, _, _ => ⟨w, hi, fun _ => Iff.rfl⟩
   | p :: ps, cur, hI, w, hi, hn, hb, hH, hext, hmono, hdg => by
     simp only [List.foldl_cons]
@@ -192,7 +294,6 @@ theorem extFold_sem {ord : Order} (ho : OrderOK ord) (snap : State) (σ' : Subst
     rw [hb0]
     have hpb : cur.σ p.1 ≠ .var p.1 := fun e => (hb p (List.mem_cons_self ..)).1 (hmono _ e)
     have step := extStep_sem (I := I) ho (snap := snap) hI w hi (x := p.1) (t := p.2) hpb
-      (hb p (List.mem_cons_self ..)).2
       (fun γ he => hH γ (Ext.trans hext he) p (List.mem_cons_self ..)) (hdg p (List.mem_cons_self ..))
     have hstep : extStep ord snap cur p = (match snap.dget p.1 with
       | some d =>
@@ -207,7 +308,7 @@ theorem extFold_sem {ord : Order} (ho : OrderOK ord) (snap : State) (σ' : Subst
     | ok s3 =>
       rw [hs] at step
       obtain ⟨w3, i3, e3, m3, d3, sem3⟩ := step
-      have ih := extFold_sem ho snap σ' ps s3 (fun y hy e => hI y hy (m3 y e)) w3 i3 hn.2
+      have ih := extFold_sem ho snap σ' ps s3 hI w3 i3 hn.2
         (fun q hq => hb q (List.mem_cons_of_mem _ hq)) (fun γ he q hq => hH γ he q (List.mem_cons_of_mem _ hq))
         (Ext.trans hext e3) (fun y hy => hmono y (m3 y hy))
         (fun q hq => by
@@ -222,19 +323,22 @@ theorem extFold_sem {ord : Order} (ho : OrderOK ord) (snap : State) (σ' : Subst
         rw [hf] at ih
         exact fun γ hs => ih γ ((sem3 γ).2 hs)
       | fuel => trivial
-      | panic s => rw [hf] at ih; exact ih
+      | panic s => rw [hf] at ih; exact ⟨ih.1, ih.2.1, fun γ hs => ih.2.2 γ ((sem3 γ).2 hs)⟩
     | fail =>
       rw [hs] at step
       rw [foldl_bind_fail]
       exact step
     | fuel => rw [foldl_bind_fuel]; trivial
-    | panic s => rw [hs] at step; exact step.elim
+    | panic s =>
+      rw [hs] at step
+      rw [foldl_bind_panic]
+      exact step
 
 end Pv
 
 namespace Pv
 open State Term FD
-variable {I : Nat → Prop}
+variable {I : Nat → Prop} [Mode]
 
 theorem Ref.to0 {S : Subst → Prop} {st : State} {r : Res State} (h : Ref I S st r)
     (hi : ∀ st', r = .ok st' → Inv st') : Ref0 I S st r := by
@@ -275,7 +379,7 @@ theorem unify_sem {st : State} (hI : IOK I st) (w : WFS st) (hi : Inv st) (u v :
       have w0 : WFS st0 := ⟨by rw [hσ0]; exact s', by rw [hd0]; exact w.dnodup, by rw [hd0]; exact w.dwf,
         by rw [hs0]; exact w.nodist⟩
       have i0 : Inv st0 := by subst hst0; exact SameStore.inv ⟨rfl, rfl, rfl, rfl, rfl⟩ hi
-      have hI0 : IOK I st0 := fun y hy e => hI y hy (hmono y (by rw [← hσ0]; exact e))
+      have hI0 : IOK I st0 := hI
       have sem0 : ∀ γ, Sem I γ st0 ↔ (Sem I γ st ∧ apply γ u = apply γ v) := fun γ => by
         unfold Sem DomSem
         rw [hσ0, hs0, hd0, hext γ]
@@ -294,7 +398,7 @@ theorem unify_sem {st : State} (hI : IOK I st) (w : WFS st) (hi : Inv st) (u v :
         have hperm := ho.2.1 e
         have fold := extFold_sem (I := I) ho s1 σ' (ord.ps e) s1 (hI0.keep k1) w1 i1
           ((hperm.map (·.1)).nodup_iff.2 hnod)
-          (fun p hp => ⟨(hbnd p (hperm.mem_iff.1 hp)).2, fun h => hI p.1 h (hbnd p (hperm.mem_iff.1 hp)).1⟩)
+          (fun p hp => ⟨(hbnd p (hperm.mem_iff.1 hp)).2, hI p.1⟩)
           (fun γ he p hp => hpairs γ he p (hperm.mem_iff.1 hp))
           (by rw [← hσ0]; exact k1.ext) (fun y hy => by rw [← hσ0]; exact k1.mono y hy) (fun _ _ => rfl)
         cases hf : (ord.ps e).foldl (fun (r : Res State) p => r.bind fun cur => extStep ord s1 cur p) (.ok s1) with
@@ -310,13 +414,17 @@ theorem unify_sem {st : State} (hI : IOK I st) (w : WFS st) (hi : Inv st) (u v :
           intro γ hs
           exact fold γ ((sem1 γ).2 ⟨(sem0 γ).2 hs, trivial⟩)
         | fuel => trivial
-        | panic s => rw [hf] at fold; exact fold
+        | panic s =>
+          rw [hf] at fold
+          exact ⟨fold.1, fold.2.1, fun γ hs => fold.2.2 γ ((sem1 γ).2 ⟨(sem0 γ).2 hs, trivial⟩)⟩
       | fail =>
         rw [hr] at p1
         intro γ hs
         exact p1 γ ⟨(sem0 γ).2 hs, trivial⟩
       | fuel => trivial
-      | panic s => rw [hr] at p1; exact p1
+      | panic s =>
+        rw [hr] at p1
+        exact ⟨p1.1, p1.2.1, fun γ hs => p1.2.2 γ ⟨(sem0 γ).2 hs, trivial⟩⟩
 
 /-- `!=` -/
 theorem disunify_sem {st : State} (w : WFS st) (hi : Inv st) (u v : Term) :
@@ -354,7 +462,7 @@ theorem disunify_sem {st : State} (w : WFS st) (hi : Inv st) (u v : Term) :
         exact r.to0 fun st' h => by cases h; exact (withNew_step (i := none) ord st _ hi).inv
 
 /-- posting a constraint for the first time -/
-theorem postCst_sem {st : State} (hI : IOK I st) (w : WFS st) (hi : Inv st) (c : Cst) (hnd : c.isDistinct = false) :
+theorem postCst_sem {st : State} (hI : IOK I st) (w : WFS st) (hi : Inv st) (c : Cst) (hnd : CstOK c) :
     Ref0 I (fun γ => CstSem γ c) st (postCst ord st c) := by
   unfold postCst
   generalize hst0 : ({ st with nextId := st.nextId + 1 } : State) = st0
@@ -379,7 +487,9 @@ theorem postCst_sem {st : State} (hI : IOK I st) (w : WFS st) (hi : Inv st) (c :
     intro γ ⟨a, b⟩
     exact body γ ⟨(sem_same hσ0 hs0 hd0 γ).2 a, b⟩
   | fuel => trivial
-  | panic s => rw [hb] at body; exact body
+  | panic s =>
+    rw [hb] at body
+    exact ⟨body.1, body.2.1, fun γ ⟨a, b⟩ => body.2.2 γ ⟨(sem_same hσ0 hs0 hd0 γ).2 a, b⟩⟩
 
 /-- `DomFd` (`infd` on one term) with a well-formed domain -/
 theorem domFd_sem {st : State} (hI : IOK I st) (w : WFS st) (hi : Inv st) (x : Term) (d : FD) (hd : WF d) :
